@@ -919,11 +919,12 @@ def get_charnos(node: ast.AST, source: str, keep_first_indent: bool = False) -> 
     if code and code[-1] == " ":
         whitespace = max(re.findall(r" *\Z$", code), key=len)
         end_charno -= len(whitespace)
-    if (
-        isinstance(node, (ast.ClassDef, ast.FunctionDef, ast.AsyncFunctionDef))
-        and source[start_charno - 1] == "@"
-    ):
-        start_charno -= 1
+    if isinstance(node, (ast.ClassDef, ast.FunctionDef, ast.AsyncFunctionDef)) and start is not node:
+        # The decorator expression starts after the @, and after any blanks or parentheses following it
+        line_start = source.rfind("\n", 0, start_charno) + 1
+        prefix = source[line_start:start_charno]
+        if prefix.lstrip().startswith("@"):
+            start_charno = line_start + len(prefix) - len(prefix.lstrip())
     if keep_first_indent:
         whitespace = max(re.findall(r" *\Z$", source[:start_charno]), key=len)
         start_charno -= len(whitespace)
